@@ -23,7 +23,7 @@ for p in props:
             "technique": c['technique'],
         })
     else:
-        not_app.append({"property_id": i, "reason": na.get(i, "check not built yet (static-analysis framework under construction; see DESIGN.md §8)")})
+        not_app.append({"property_id": i, "reason": na.get(i, "not claimed: the static rule designed for this property (DESIGN.md §4) has not been built, so no verdict is given; this is 'not built in the time available', not 'static analysis cannot apply' — see DESIGN.md §9")})
 m = {
  "version": 1,
  "setup_cmd": "bash ./setup.sh",
